@@ -4,3 +4,4 @@ import Iodata.Model.Fmt.PoscarW
 import Iodata.Model.Fmt.FchkO
 import Iodata.Model.Fmt.WfnS
 import Iodata.Model.Fmt.WfxS
+import Iodata.Model.Fmt.Qcs
